@@ -180,6 +180,23 @@ class NestedIfcConn(Component):
     s.o[1] //= s.x[1].inner[1].msg
 
 
+class _PassChild(Component):
+  def construct(s):
+    s.in_ = InPort(Bits8)
+    s.out = OutPort(Bits8)
+    s.out //= s.in_
+
+
+class PassThroughHier(Component):
+  """connections only, in the top and in its child (no update block anywhere)"""
+  def construct(s):
+    s.in_ = InPort(Bits8)
+    s.out = OutPort(Bits8)
+    s.c = _PassChild()
+    s.c.in_ //= s.in_
+    s.out //= s.c.out
+
+
 class TIn(Interface):
   def construct(s, T):
     s.msg = InPort(T)
@@ -223,4 +240,4 @@ class HeteroCompIfcArray(Component):
 
 DESIGNS = {"IfcGrid": IfcGrid, "IfcGridLoop": IfcGridLoop, "IfcRow": IfcRow, "FooTop": FooTop, "CompArray": CompArray, "DownLoop": DownLoop,
            "NestedIfc": NestedIfc, "NestedIfcConn": NestedIfcConn,
-           "NestedIfcExprIndex": NestedIfcExprIndex, "HeteroIfcArray": HeteroIfcArray, "HeteroCompIfcArray": HeteroCompIfcArray}
+           "NestedIfcExprIndex": NestedIfcExprIndex, "PassThroughHier": PassThroughHier, "HeteroIfcArray": HeteroIfcArray, "HeteroCompIfcArray": HeteroCompIfcArray}
